@@ -7,14 +7,18 @@ ID = "C13"; MODEL = "life"; IMPL = "life"
 COQ_PROP = "Properties/C13.v"; COQ_DIRS = ["Common", "Life"]
 COQ_MODULE = "Life.Model"; RUN_FN = "run"
 THEOREMS = ["C13_contained", "C13_errors_exact", "C13_ok_only_if_no_uncaught_panic", "C13_globals_released",
-            "C13_others_as_if_silent", "C13_stereotype_in_force", "C13_errors_exact_full", "C13_ok_iff", "C13_others_teardown", "C13_silent_ends_no_later"]
+            "C13_others_as_if_silent", "C13_stereotype_in_force", "C13_errors_exact_full", "C13_ok_iff", "C13_others_teardown", "C13_silent_ends_no_later", "C13_only_catch_flag_matters"]
 QUICK_N = 2500; THOROUGH_N = 120000
 RULE = ("scripts as for C09 (2..4 scripted modules with handler / start / task / end programs, injected messages) with a panic -- an "
         "explicit panic!(), or one raised by the library on behalf of the module: schedule_at / send_at / "
         "current().shutdow_and_restart_at called with a time stamp in the past (now - d, d >= 1 ns; at now = 0, where no past exists, "
-        "the script panics itself) -- placed in "
+        "the script panics itself); or one that BEGINS WHILE A LIBRARY LOCK IS HELD: a panic inside a closure given to Prop::update / "
+        "Prop::map of the module's own property, or a re-entrant access to that property from inside such a closure (the library's own "
+        "'Could not lock mutex' panic), followed in the same run by reads of that property from other modules (through their ModuleRef) "
+        "and from the module itself after a restart -- placed in "
         "handle_message, at_sim_start (initial and restarts), at_sim_end and in spawned tasks: every (module, callback kind, program, "
-        "position) of a healthy base simulation, both stereotypes (on_panic_catch true / false), set_stereotyp(catch | no catch) from "
+        "position) of a healthy base simulation, all 32 stereotypes (on_panic_catch x the four flags des never reads: on_panic_drop, "
+        "on_panic_restart, on_panic_drop_submodules, on_panic_inform_parent), set_stereotyp (any of the 32) from "
         "callbacks and tasks -- in the very callback that panics, in an earlier event, in another program, before a restart --, one or "
         "several panicking modules, panics after a shutdown request in the same callback, task handles given to join() or try_join() "
         "(tasks that finish, panic, are cancelled by a shutdown or are still asleep at the end), a family in which the dead module's "
@@ -22,6 +26,9 @@ RULE = ("scripts as for C09 (2..4 scripted modules with handler / start / task /
         "process, and a third time with the panics of one module replaced by 'quiet' (falls silent) to compare the other modules' logs.  "
         "non-trivial = distinct script whose run contains a callback panic and a later event of another module")
 TRUSTED = c09.TRUSTED + [
+    "every module's property 'p' is 100 + its index, set before the run and never changed (the lock-held panics start before anything "
+    "is written), so a property read is a log of a constant and the model carries no property state; what the real code leaves after a "
+    "closure that writes and then panics (the write persists, there is no roll-back) was looked up by hand, not modelled",
     "a library-raised panic is scripted as: write the panic record, then call schedule_at / send_at / shutdow_and_restart_at with a past time stamp; if the "
     "library does not panic inside the call the program simply goes on (and the log shows it)",
     "a callback panic is observed through the record the scripted callback writes just before panic!() (it carries the on_panic_catch "
@@ -79,7 +86,12 @@ CLAIM = dict(
          "corpus/C13/multistage_panic.txt; a runtime that samples the stereotype before the callback is the pinned variant (c) there. "
          "The tear-down records of other modules agree up to the final time stamp (left-over wake-ups of the dead module move the end of "
          "the simulation): proved (others_teardown), and so is that the silent run never ends later than the panicking one "
-         "(silent_ends_no_later; the monitor clause stays). at_sim_end is called on panicked modules too. Before 09c7b16 (F19) "
+         "(silent_ends_no_later; the monitor clause stays). at_sim_end is called on panicked modules too. Only on_panic_catch of the "
+         "five Stereotyp flags is read by des, and never by the model (C13_only_catch_flag_matters: a module's configuration and the decoded "
+         "set_stereotyp action do not depend on the other four). Locks: des_net_utils::sync::Mutex guards the property slots and the "
+         "process-global BUF_CTX; panics that begin under a property lock are scripted (closure panic, re-entrant access) and the lock must "
+         "be usable afterwards; BUF_CTX is held by buf_process while it calls Module::reset, so the public send/schedule API panics with "
+         "'Could not lock mutex on single thread' when used from reset() (contained; Module::reset is not scripted by the runner). Before 09c7b16 (F19) "
          "current().shutdow_and_restart_at(t) with t in the past was accepted inside the callback and rejected only when buf_process "
          "handed the restart event to the runtime, outside the panic harness -- run() itself panicked (not contained, not attributed): "
          "Refuted/C13.v (d), corpus/C13/library_panics.txt line 3; since the fix the call panics inside the callback and is scripted "
@@ -236,6 +248,8 @@ def monitor(script, out):
                             "merely falls silent" % (o, m, i, pa[i] if i < len(pa) else "missing", pv[i] if i < len(pv) else "missing", m))
     except (ValueError, Bad) as e:
         return str(e)
+    except (IndexError, KeyError, TypeError) as e:
+        return "malformed log (%s: %s)" % (type(e).__name__, e)
     return None
 
 
@@ -265,7 +279,7 @@ def mechanisms(script, out):
         a, b, v = records3(out)
         d = decode(script)
         run, panics, tp = check_panics(d, a)
-    except (ValueError, Bad):
+    except (ValueError, Bad, IndexError, KeyError, TypeError):
         return ms
     if not panics and not any(tp):
         return ms
